@@ -1,10 +1,10 @@
 package eng
 
 import (
-	"sort"
 	"fmt"
 	"go/token"
 	"go/types"
+	"sort"
 	"strings"
 
 	"golang.org/x/tools/go/ssa"
@@ -735,6 +735,35 @@ func (e *Engine) modularCallSig(st *State, sig *types.Signature, name string, ct
 			e.Assumed["trusted postcondition of "+ct.Pkg+"::"+ct.Key+" (assumed at call sites, not checked): "+en.Src] = true
 		}
 		e.assume(st, e.evalClause(post, en))
+	}
+	if ct.NoFrame && !ct.ModAny {
+		// the objects the callee built refer to allocated objects only: well-formedness of the heap after the call, which the
+		// callee's postcondition describes only as far as it names the new objects' contents
+		var cls []string
+		for cl, k := range e.classKinds {
+			if k == LKRef || k == LKSlArr {
+				cls = append(cls, cl)
+			}
+		}
+		sort.Strings(cls)
+		r := tb.BoundVar("r", SInt)
+		i := tb.BoundVar("i", SInt)
+		// (stated for every allocated object: the heap below the new allocation bound is well formed as a whole)
+		in := tb.And(tb.Le(tb.Int(0), r), tb.Lt(r, st.Alloc))
+		for _, cl := range cls {
+			h, ok := st.Heap[cl]
+			if !ok {
+				h = tb.Const("H!"+cl, e.classSorts[cl])
+			}
+			switch e.classSorts[cl] {
+			case SArrI:
+				v := tb.Select(h, r)
+				e.assumeQuiet(st, tb.Forall([]*Term{r}, tb.Implies(in, tb.And(tb.Le(tb.Int(0), v), tb.Lt(v, st.Alloc))), []*Term{v}))
+			case SArr2I:
+				v := tb.Select(tb.Select(h, r), i)
+				e.assumeQuiet(st, tb.Forall([]*Term{r, i}, tb.Implies(in, tb.And(tb.Le(tb.Int(0), v), tb.Lt(v, st.Alloc))), []*Term{v}))
+			}
+		}
 	}
 	// copy-out for interior pointers
 	if len(ct.Modifies) > 0 {
